@@ -190,9 +190,18 @@ def gen_spec(rng, knobs) -> dict:
     if redefinable and len(okc) >= 2 and rng.random() < 0.5:
         i, j = rng.sample(okc, 2)
         v = rng.choice(redefinable)
+        # one of the two may write the unit by its symbol or alias: it is the same unit all the same
+        spelled = [d for d in derived if d.get("symbol") or d.get("aliases")]
+        other = None
+        if spelled and not knobs.get("ci") and rng.random() < 0.6:
+            d = rng.choice(spelled)
+            v = d["name"]
+            other = rng.choice(([d["symbol"]] if d.get("symbol") else []) + list(d.get("aliases", ())))
         for ci, fac in ((i, "3"), (j, "7")):
             contexts[ci]["redefs"] = [r for r in contexts[ci]["redefs"] if r["name"] != v]
             contexts[ci]["redefs"].append({"name": v, "factor": fac, "ref": dict(table.units[v]["ref"])})
+        if other:
+            contexts[rng.choice([i, j])]["redefs"][-1]["as"] = other
         spec["redef_clash"] = [i, j, v]
     # contexts whose activation must fail (invalid redefinition at position j)
     kinds = ["undef", "prefixed", "base", "dim"]
@@ -227,6 +236,39 @@ def gen_spec(rng, knobs) -> dict:
                 ctx["redefs"].append({"name": "nosuch", "factor": "3", "ref": {base[0]: 1}})
                 ctx["bad"] = "undef"
             contexts.append(ctx)
+    # a context built in Python one of whose rules is written in a dimension the registry does not know yet
+    # ([zq]): its activation must fail and change nothing - neither the stack nor the context object - until
+    # the dimension is defined at run time; from then on it is an ordinary context
+    spec["late_dim"] = None
+    if knobs.get("badctx", True) and knobs.get("pyctx", True) and len(nodes) >= 2 and rng.random() < 0.35:
+        ref = mono_mul({dims[0]: 1}, {rng.choice(dims): rng.choice([1, 2, -2])})
+        spec["ddims"].append({"name": "[zq]", "ref": ref, "late": True})
+        table = RefTable(spec)
+        ci = len(contexts)
+        ctx = {"name": f"c{ci}", "aliases": [], "via": rng.choice(["py", "anon"]), "defaults": {}, "rules": [],
+               "redefs": [], "bad": "undim"}
+        others = [n for n in nodes if vec_key(table.dimvec(n)) != vec_key(ref)]
+        written = [n for n in others if any(k in table.ddims for k in n)] or others
+        if others:
+            zq_rule = make_rule(f"r{rid}", {"[zq]": 1}, rng.choice(others), rng.random() < 0.3, rng.random() < 0.5)
+            rid += 1
+            second = rng.sample(others, 2) if len(others) >= 2 else None
+            rules = [zq_rule]
+            if second:
+                # a rule written in a derived dimension where there is one: rewritten on first activation
+                src2 = rng.choice(written)
+                dst2 = rng.choice([n for n in others if n is not src2])
+                r2 = make_rule(f"r{rid}", src2, dst2, False, rng.random() < 0.5)
+                rid += 1
+                rules.append(r2)
+                if rng.random() < 0.5:
+                    rules.reverse()
+            ctx["rules"] = rules
+            contexts.append(ctx)
+            spec["late_dim"] = {"name": "[zq]", "ref": ref, "ctx": ci}
+        else:
+            spec["ddims"].pop()
+            table = RefTable(spec)
     # a context without any rule at all (redefinitions only) has no marker either: its place in the
     # stack shows only through what it does to the others
     for ctx in contexts:
@@ -291,7 +333,7 @@ def render_context(ctx: dict) -> list:
         arrow = "<->" if r["bidir"] else "->"
         out.append(f"    {mono_str(r['src'])} {arrow} {mono_str(r['dst'])}: {equation(r)}")
     for rd in ctx["redefs"]:
-        out.append(f"    {rd['name']} = {rd['factor']} * {mono_str(rd['ref'])}")
+        out.append(f"    {rd.get('as', rd['name'])} = {rd['factor']} * {mono_str(rd['ref'])}")
     out.append("@end")
     return out
 
@@ -459,6 +501,9 @@ class ProgGen:
                 # the unit whose absence makes a context invalid gets defined: from then on the context is valid
                 out.append({"id": self.sid(), "k": "define", "name": "nosuch", "factor": _num_lit(rng),
                             "ref": {BASE_UNITS[0]: 1}, "heal": True})
+            elif r < 0.98 and self.spec.get("late_dim"):
+                ld = self.spec["late_dim"]
+                out.append({"id": self.sid(), "k": "define_dim", "name": ld["name"], "ref": dict(ld["ref"])})
             elif r < 0.985:
                 # a parameter value that cannot be hashed: with a redefining context the combination key
                 # cannot be computed, the activation must fail and change nothing
@@ -702,6 +747,30 @@ class CtxWorld:
             a = kr.randint(0, len(program))
             b = kr.randint(a, len(program))
             program = program[:a] + parts[0] + program[a:b] + parts[1] + program[b:]
+        ld = spec.get("late_dim")
+        if ld and kr.random() < 0.6:
+            # refused because a dimension is unknown - the dimension gets defined - the same activation again: every
+            # rule of the context must then be in force, also those that come after the offending one
+            i = ld["ctx"]
+            c = spec["contexts"][i]
+            ref = {"c": i, "via": "obj" if c["via"] == "anon" else "name"}
+            t = pg.table
+            bod = t.base_unit_of_dim()
+            snippet = [{"id": pg.sid(), "k": "enable", "ctxs": [dict(ref)], "kw": {}}]
+            if kr.random() < 0.5:
+                snippet.append({"id": pg.sid(), "k": "enable", "ctxs": [dict(ref)], "kw": {}})
+            snippet += [{"id": pg.sid(), "k": "define_dim", "name": ld["name"], "ref": dict(ld["ref"])},
+                        {"id": pg.sid(), "k": "enable", "ctxs": [dict(ref)], "kw": {}}]
+            for r in c["rules"]:
+                if r.get("marker"):
+                    continue
+                vs, vd = t.dimvec(r["src"]), t.dimvec(r["dst"])
+                snippet.append({"id": pg.sid(), "k": "probe", "x": "2", "src": {bod[k]: e for k, e in vs.items()},
+                                "dst": {bod[k]: e for k, e in vd.items()}, "form": kr.choice(["to", "convert", "compat_q"]),
+                                "use_def": False})
+            snippet.append({"id": pg.sid(), "k": "disable", "n": 1})
+            a = kr.randint(0, len(program))
+            program = program[:a] + snippet + program[a:]
         undef = [i for i, c in enumerate(spec["contexts"]) if c["bad"] == "undef"]
         if undef and kr.random() < 0.5:
             # an activation that fails because a unit is missing, the unit gets defined, the very same
@@ -939,7 +1008,7 @@ class _Run:
         self.in_probe = False
         self.ended = False
         self.last_fail = None
-        self.healed = False  # the unit missing from the 'undef' contexts has been defined
+        self.healed = set()  # kinds of invalid context made valid by a run-time definition ('undef', 'undim')
 
     # ------------------------------------------------------------ setup / teardown
     def num(self, s):
@@ -1006,7 +1075,7 @@ class _Run:
                     if r["bidir"]:
                         obj.add_transformation(mono_str(r["dst"]), mono_str(r["src"]), f)
                 for rd in c["redefs"]:
-                    obj.redefine(f"{rd['name']} = {rd['factor']} * {mono_str(rd['ref'])}")
+                    obj.redefine(f"{rd.get('as', rd['name'])} = {rd['factor']} * {mono_str(rd['ref'])}")
                 for ri, ureg in enumerate(self.regs):
                     if c["via"] == "py":
                         ureg.add_context(obj)
@@ -1252,6 +1321,7 @@ class _Run:
                 self.violate("C12.ctx-mutated", self.cur_id, {
                     "context": i, "when": why,
                     "changed": [k for k, (a, b) in enumerate(zip(s, now)) if a != b]})
+                self.snap[i] = now  # (only reached when another property is being checked)
 
     def after(self, s, ri, why, changed=True):
         self.observe(ri, why)
@@ -1297,6 +1367,8 @@ class _Run:
         if rule.startswith(self.prop + "."):
             raise Violation(rule, step, detail)
         self.col.probe("other_property:" + rule)
+        if rule == "C12.ctx-mutated":
+            return  # the stack model is still in step: C11 goes on and judges the values that follow
         if rule.startswith("C12."):
             # the stack model may be out of step with pint: no verdict on the rest of this run
             raise _EndRun()
@@ -1315,7 +1387,7 @@ class _Run:
             c = self.spec["contexts"][r["c"]]
             if c.get("dropped"):
                 raise HarnessError("reference to dropped context")
-            if c["bad"] and not (c["bad"] == "undef" and self.healed):
+            if c["bad"] and c["bad"] not in self.healed:
                 bad = True
             via = r["via"]
             if via == "alias" and not c["aliases"]:
@@ -1446,6 +1518,19 @@ class _Run:
             self.after(s, ri, "gc", changed=False)
         elif k == "define":
             self.do_define(s, ri)
+        elif k == "define_dim":
+            self.col.steps += 1
+            if "undim" in self.healed or any(m.overlay_active() for m in self.models):
+                return
+            for ureg in self.regs:
+                try:
+                    ureg.define(f"{s['name']} = {mono_str(s['ref'])}")
+                except Exception as e:
+                    self.violate("C12.define-raised", s["id"], {"exc": exc_name(e), "line": s["name"]})
+            self.healed.add("undim")
+            self.col.probe("invalid_context_healed:dimension")
+            self.log.ev(s["id"], "define_dim", s["name"])
+            self.after(s, ri, "define")
         elif k == "probe":
             self.do_probe(s, ri)
         else:
@@ -1483,7 +1568,7 @@ class _Run:
         # the same statement is applied to every registry so that they keep the same definitions
         line = f"{s['name']} = {s['factor']} * {mono_str(s['ref'])}"
         if s.get("heal"):
-            if self.healed or any(m.overlay_active() for m in self.models):
+            if "undef" in self.healed or any(m.overlay_active() for m in self.models):
                 return  # once, and only into the registry proper (DESIGN.md O3)
         for rj, ureg in enumerate(self.regs):
             model = self.models[rj]
@@ -1499,7 +1584,7 @@ class _Run:
                 model.epoch += 1
                 self.col.probe("define_plain")
                 if s.get("heal"):
-                    self.healed = True
+                    self.healed.add("undef")
                     self.col.probe("invalid_context_healed")
         self.log.ev(s["id"], "define", s["name"])
         self.after(s, ri, "define")
